@@ -128,8 +128,22 @@ pub fn run_with(
     extra: usize,
     fail_at_end: Option<io::ErrorKind>,
 ) -> Obs {
+    run_slowly(flavour, greeting, stream, seg, extra, fail_at_end, &[])
+}
+
+/// `sleeps`: (read index, milliseconds of REAL time that pass before that read returns)
+pub fn run_slowly(
+    flavour: Flavour,
+    greeting: &[u8],
+    stream: &[u8],
+    seg: &Seg,
+    extra: usize,
+    fail_at_end: Option<io::ErrorKind>,
+    sleeps: &[(usize, u64)],
+) -> Obs {
     let mut st = state(greeting, stream, seg);
     st.fail_at_end = fail_at_end;
+    st.sleep_before_read = sleeps.to_vec();
     let max_responses = stream.len() / 3 + 4;
     let mut obs = Obs {
         version: None,
